@@ -391,7 +391,12 @@ func c16GenHistory(g *Gen, producer bool) {
 				schema = "empty"
 			}
 		}
-		lines = append(lines, fmt.Sprintf("x 0 %s %s %s %s", kind, schema, genVals(r, 3), strings.Join(meta, " ")))
+		route := kind
+		if r.Chance(4) { // the cursor presented on the other method's continuation route: refused
+			route = map[string]string{"ex": "pr", "pr": "ex"}[kind]
+			presented = false
+		}
+		lines = append(lines, fmt.Sprintf("x 0 %s %s %s %s", route, schema, genVals(r, 3), strings.Join(meta, " ")))
 		if presented && callOK && !cancelled && cur < len(toks) && maxresp != 1 && (producer || schema == "ok" || schema == "cast") {
 			if np, ok := shadowTurn(toks[cur].prog, toks[cur].pos, producer, limit); ok {
 				toks = append(toks, shadowTok{np, toks[cur].call, toks[cur].prog})
